@@ -252,8 +252,16 @@ def cmd_gen(a):
 
 def apply_text(text, m):
     b = text.encode()
-    assert b[m["a"]:m["b"]].decode() == m["old"], (m, b[m["a"]:m["b"]])
-    return (b[: m["a"]] + m["new"].encode() + b[m["b"]:]).decode()
+    a0, b0 = m["a"], m["b"]
+    if b[a0:b0].decode(errors="replace") != m["old"]:
+        # the file changed since `gen` (a later fix: commit shifted the offsets by a few bytes): relocate to the nearest identical text
+        o = m["old"].encode()
+        for d in sorted(range(-80, 81), key=abs):
+            if a0 + d >= 0 and b[a0 + d:a0 + d + len(o)] == o:
+                a0, b0 = a0 + d, a0 + d + len(o)
+                break
+    assert b[a0:b0].decode() == m["old"], (m, b[a0:b0])
+    return (b[:a0] + m["new"].encode() + b[b0:]).decode()
 
 
 # ---------------------------------------------------------------------------------------------------- evaluation
@@ -261,7 +269,7 @@ def run_check(scratch, cid, jobs, limit=None, stop_after=1, timeout=900, seed="0
     cmd = [os.path.join(VERIF, "check"), cid, "--tier", "quick"]
     if limit:
         cmd += ["--limit", str(limit)]
-    e = dict(os.environ, VERIF_REPO=scratch, VERIF_SEED=seed, VERIF_JOBS=str(jobs), VERIF_STOP_AFTER=str(stop_after), VERIF_WATCHDOG_CAP="60")
+    e = dict(os.environ, VERIF_REPO=scratch, VERIF_SEED=seed, VERIF_JOBS=str(jobs), VERIF_STOP_AFTER=str(stop_after), VERIF_WATCHDOG_CAP="90")
     t0 = time.time()
     try:
         r = subprocess.run(cmd, env=e, cwd=VERIF, capture_output=True, text=True, timeout=timeout)
